@@ -2,6 +2,8 @@
 unrolled run plus a witness valuation, UNDECIDED otherwise."""
 from __future__ import annotations
 
+import os
+
 from .interp import Analysis
 from .lin import Lin, Infeasible
 from .report import Ob, PROVED, REFUTED, UNDECIDED, Failure, find_witness, witness_text
@@ -89,6 +91,24 @@ class Runs:
         if not fails and not blocked:
             ob.verdict = PROVED
             ob.detail = f'holds on all {len(self.inv)} abstract paths (inductive run)'
+            if os.environ.get('CARDVERIF_DEEP'):
+                # thorough tier: cross-check the proof against the unrolled (under-approximating) run
+                n2 = 0
+                for p in self.unr:
+                    if p.outcome == 'abandon' or p.tainted:
+                        continue
+                    n2 += 1
+                    for f in check(p, 'unroll'):
+                        f.path = p
+                        w = find_witness(p, f)
+                        if w is not None:
+                            ob.verdict = UNDECIDED
+                            ob.detail = ('inductive proof contradicted by a witness on an unrolled path (checker '
+                                         f'inconsistency): {f.desc}; witness {witness_text(w)}')
+                            return ob
+                ob.detail += f'; cross-checked on {n2} unrolled paths'
+                if self.res is not None:
+                    self.res.count(evaluations=n2)
             return ob
         # try to refute on unrolled paths
         n_eval = 0
